@@ -184,6 +184,10 @@ def replay_histories(ctx, vh, meta, hists, label, stride_default=1):
         total_calls += summ["calls"]
         stats[cfg] = summ["stats"]
         for r in rows:
+            if r["kind"] == "twin":
+                report(ctx, dict(src="twin", cache=cfg), "cache %s: %s" % (cfg, r["detail"]),
+                       dict(kind="script", cache=cfg, meta=meta, calls=[]))
+                continue
             if r["kind"] != "mismatch":
                 continue
             calls = r["calls"][:r["call"] + 1]
@@ -348,6 +352,14 @@ def replay_file(ctx, vh):
     r = json.load(open(ctx.replay))["replay"]
     mp = ctx.path("meta-replay.json")
     json.dump(r["meta"], open(mp, "w"))
+    if not r["calls"]:      # the twin-type probe of one cache configuration (it runs at the end of every replay process)
+        op = ctx.path("replay-twin.ndjson")
+        run_vh(ctx, vh, ["typecache-replay", "-cache", r["cache"], "-meta", mp], stdin_path=os.devnull, stdout_path=op)
+        for row in common.read_ndjson(op):
+            if row["kind"] == "twin":
+                report(ctx, dict(src="twin", cache=r["cache"]), "replay: cache %s: %s" % (r["cache"], row["detail"]), r)
+        return ctx.finish("model_checking", dict(evaluations=1, distinct_nontrivial=0, samples=[dict(cache=r["cache"], probe="twin types")],
+                                                 replay=True, traces_validated_against_impl=1))
     tp, rej = run_script(ctx, vh, mp, r["cache"], r["calls"], "replay")
     evs = common.read_ndjson(tp)
     if rej is not None:
